@@ -66,6 +66,20 @@ def utc_anchored(expr: ast.AST) -> Optional[bool]:
     return verdict
 
 
+_NON_WALL_CLOCKS = {"monotonic", "monotonic_ns", "perf_counter", "perf_counter_ns", "process_time", "process_time_ns", "thread_time", "thread_time_ns"}
+
+
+def _non_wall_epoch(expr: ast.AST) -> Optional[str]:
+    """The text of a counter read (time.monotonic() and the like) that flows into the epoch argument of a
+    fromtimestamp() / utcfromtimestamp() / gmtime() conversion inside *expr* (None when there is none)."""
+    for c in ast.walk(expr):
+        if isinstance(c, ast.Call) and (call_name(c) or "").split(".")[-1] in ("fromtimestamp", "utcfromtimestamp", "gmtime") and c.args:
+            for x in ast.walk(c.args[0]):
+                if isinstance(x, ast.Call) and (call_name(x) or "").split(".")[-1] in _NON_WALL_CLOCKS:
+                    return txt(x)
+    return None
+
+
 def _offset_to_z(n: ast.AST) -> Optional[ast.AST]:
     """The text *n* rewrites when *n* is `<text>.replace('<offset>', 'Z')` (str.replace with two constant strings, the
     new one being the designator): the UTC offset a rendering ends in is exchanged for `Z`.  None otherwise."""
@@ -99,7 +113,7 @@ def z_labelled(fn: ast.AST) -> List[ast.AST]:
 
 _MUT = {"append", "extend", "insert", "add", "update", "setdefault", "pop", "popitem", "remove", "discard", "clear", "sort", "reverse"}
 KEEP = (
-    "_type_check_entry", "_extract_context_delta_lists", "_normalize_expected", "_format_expected_type", "_parameter_defaults",
+    "_type_check_entry", "_extract_context_delta_lists", "_parameter_defaults",
     "_data_summary", "_context_summary", "_iso_now", "_context_snapshot", "_stable_equal", "_processor_config_for",
     "_infer_context_parameters", "_required_keys_for", "_normalize_keys", "_now_timestamp",
 )
@@ -1347,6 +1361,33 @@ def _renders_as_text(v: ast.AST, p: str) -> Optional[str]:
     return None
 
 
+def _raw_image(v: ast.AST, p: str) -> Optional[Tuple[ast.AST, str]]:
+    """(source, text) when *v* is the raw memory image / bytes() construction of an expression that reads parameter *p*
+    and nothing else: `bytes(x)`, `bytearray(x)`, `memoryview(x).tobytes()`, `x.tobytes()`, `bytes(memoryview(x))`, with
+    x = p or a cast / slice of it.  *source* is the innermost expression the image is taken of."""
+    how = txt(v)
+    cur = v
+    seen = False
+    while True:
+        if isinstance(cur, ast.Call) and call_name(cur) in ("bytes", "bytearray", "memoryview") and len(cur.args) == 1 and not cur.keywords:
+            seen = seen or call_name(cur) != "memoryview"
+            cur = cur.args[0]
+        elif isinstance(cur, ast.Call) and isinstance(cur.func, ast.Attribute) and cur.func.attr in ("tobytes", "tostring") and not cur.keywords:
+            seen = True
+            cur = cur.func.value
+        elif isinstance(cur, ast.Call) and isinstance(cur.func, ast.Attribute) and cur.func.attr in ("cast", "toreadonly"):
+            cur = cur.func.value
+        elif isinstance(cur, ast.Subscript) and isinstance(cur.slice, ast.Slice):
+            cur = cur.value
+        else:
+            break
+    if seen and dotted_name(cur) is not None and (dotted_name(cur) or "").split(".")[0] == p:
+        return cur, how
+    if seen and isinstance(cur, ast.Name):
+        return cur, how
+    return None
+
+
 def _branches(vals: List[ast.AST]) -> List[ast.AST]:
     """The alternatives of conditional expressions, flattened."""
     out: List[ast.AST] = []
@@ -1645,6 +1686,14 @@ def serialize_encoders(repo: Repo, R: Report, rule: str, rule_whole: Optional[st
                         continue
                     R.ok(rule, UTILS, qn, where, "the bytes-like object's own bytes", r.lineno)
                     continue
+                raw = _raw_image(v, p)
+                if raw is not None and not native:
+                    src, how = raw
+                    if txt(src) in buffers:
+                        R.ok(rule, UTILS, qn, where, "the bytes-like object's own bytes", r.lineno)
+                        continue
+                    R.violation(rule, UTILS, qn, where, f"`{how[:60]}` turns the value into bytes by copying its memory (or by the bytes() constructor) without a dominating test that it is a bytes / bytearray / memoryview object: the raw image of a buffer-exporting value has no shape, element type or class (a 6-element array, its 2x3 layout and its float view of the same memory get the same bytes; bytes(3) is three zero bytes, bytes([0, 0, 0]) too), so different contents share a digest and _stable_equal reports such a rewrite as unchanged (updated_keys misses the key)", r.lineno)
+                    continue
                 text = _renders_as_text(v, p)
                 if text is None and any(isinstance(c, ast.Call) and _repr_like(repo, mod, fn, c, p) for c in ast.walk(v)):
                     text = "repr() through a helper that returns the full text"
@@ -1869,6 +1918,114 @@ def _eager_reads(call: ast.Call) -> Set[str]:
     return out
 
 
+# ---------------------------------------------------------------------------------------------------------
+# D4 detached snapshots: the pre-node view shares no container with the live context, at any nesting level
+# ---------------------------------------------------------------------------------------------------------
+_SHALLOW_COPY = {"dict", "list", "tuple", "set", "frozenset", "sorted", "OrderedDict", "collections.OrderedDict", "copy.copy"}
+_DEEP_COPY = {"copy.deepcopy", "deepcopy"}
+_VIEWS = {"items", "values", "keys"}
+
+
+class Exports:
+    """Which containers owned by a context object (attributes of the instance that its methods write into in place)
+    are reachable, and at which nesting depth, from the value an export method (`to_dict` on the unchanged tree; found
+    as the argument-less method the snapshot function calls on the context it is given) returns.
+
+    depth 0: the value *is* such a container; depth n: it sits n container levels below a fresh one.  A shallow copy
+    (dict(..), list(..), .copy(), {**x}) removes depth 0 only; a comprehension / display adds one level."""
+
+    def __init__(self, repo: Repo, names: Set[str]) -> None:
+        self.repo = repo
+        self.names = set(names)
+        self.cands: Dict[str, List[Tuple[object, ast.ClassDef, ast.AST]]] = {n: [] for n in self.names}
+        fam: List[Tuple[object, ast.ClassDef]] = []
+        for m, _q, k in repo.all_classes():
+            for st in k.body:
+                if isinstance(st, FuncNode) and st.name in self.names:
+                    self.cands[st.name].append((m, k, st))
+                    for mk in repo.mro(m, k):
+                        if not any(mk[1] is f[1] for f in fam):
+                            fam.append(mk)
+        self.live_attrs: Set[str] = set()
+        for _m, k in fam:
+            for st in k.body:
+                recv = _receiver(st) if isinstance(st, FuncNode) else None
+                if recv:
+                    self.live_attrs |= {a for a, _n, plain in instance_writes(st, recv) if not plain}
+        self._memo: Dict[int, Dict[int, Tuple[str, str, ast.AST]]] = {}
+        self._open: Set[int] = set()
+
+    def of_method(self, m, fn: ast.AST) -> Dict[int, Tuple[str, str, ast.AST]]:
+        if id(fn) in self._memo:
+            return self._memo[id(fn)]
+        if id(fn) in self._open:
+            return {}
+        self._open.add(id(fn))
+        out: Dict[int, Tuple[str, str, ast.AST]] = {}
+        for r in [r for r in walk_no_nested(fn) if isinstance(r, ast.Return) and r.value is not None]:
+            for d, src in self.depths(m, fn, r.value).items():
+                out.setdefault(d, src)
+        self._open.discard(id(fn))
+        self._memo[id(fn)] = out
+        return out
+
+    def depths(self, m, fn: ast.AST, e: Optional[ast.AST], only: Optional[ast.AST] = None, _names: frozenset = frozenset()) -> Dict[int, Tuple[str, str, ast.AST]]:
+        """{depth: (file, function, expression that names the owned container)} for the value of *e* in *fn*.  *only*
+        restricts the export methods a call in *fn* itself may run to that one method (the case looked at)."""
+        D = lambda x, nm=_names: self.depths(m, fn, x, only, nm)
+
+        def merge(*ds: Dict[int, Tuple[str, str, ast.AST]]) -> Dict[int, Tuple[str, str, ast.AST]]:
+            out: Dict[int, Tuple[str, str, ast.AST]] = {}
+            for d in ds:
+                for k, v in d.items():
+                    out.setdefault(k, v)
+            return out
+
+        def below(d: Dict[int, Tuple[str, str, ast.AST]]) -> Dict[int, Tuple[str, str, ast.AST]]:
+            return {k + 1: v for k, v in d.items()}
+
+        def copied(d: Dict[int, Tuple[str, str, ast.AST]]) -> Dict[int, Tuple[str, str, ast.AST]]:
+            return {k: v for k, v in d.items() if k > 0}
+
+        if e is None:
+            return {}
+        if isinstance(e, ast.IfExp):
+            return merge(D(e.body), D(e.orelse))
+        if isinstance(e, ast.BoolOp):
+            return merge(*[D(v) for v in e.values])
+        if isinstance(e, ast.NamedExpr):
+            return D(e.value)
+        if isinstance(e, ast.Attribute) and e.attr in self.live_attrs and isinstance(e.ctx, ast.Load):
+            return {0: (m.rel, qualname_of(getattr(fn, "_normal_of", fn)), e)}
+        if isinstance(e, ast.Name):
+            if e.id in _names:
+                return {}
+            return merge(*[self.depths(m, fn, d, only, _names | {e.id}) for d in _def_table(fn)[1].get(e.id, [])])
+        if isinstance(e, ast.Dict):
+            return merge(*[below(D(v)) if k is not None else copied(D(v)) for k, v in zip(e.keys, e.values)])
+        if isinstance(e, (ast.List, ast.Tuple, ast.Set)):
+            return merge(*[copied(D(x.value)) if isinstance(x, ast.Starred) else below(D(x)) for x in e.elts])
+        if isinstance(e, (ast.ListComp, ast.SetComp, ast.GeneratorExp)):
+            return below(D(e.elt))
+        if isinstance(e, ast.DictComp):
+            return below(D(e.value))
+        if isinstance(e, ast.Call):
+            cn = call_name(e) or ""
+            if cn in _DEEP_COPY:
+                return {}
+            if cn in _SHALLOW_COPY and len(e.args) == 1 and not e.keywords:
+                return copied(D(e.args[0]))
+            if isinstance(e.func, ast.Attribute) and not e.args and not e.keywords:
+                if e.func.attr == "copy":
+                    return copied(D(e.func.value))
+                if e.func.attr in _VIEWS:
+                    return D(e.func.value)
+                if e.func.attr in self.names:
+                    cs = [(cm, cf) for cm, _k, cf in self.cands[e.func.attr] if only is None or cf is only]
+                    return merge(*[self.of_method(cm, cf) for cm, cf in cs])
+        return {}
+
+
 class Roles:
     """Where the code that fills each part of a SER lives *in this tree*.
 
@@ -1888,6 +2045,7 @@ class Roles:
         self._nf: Dict[tuple, ast.AST] = {}
         self._regions: Dict[int, List[Tuple[object, ast.AST]]] = {}
         self.every_ex = _def_table(self.ex)[1]
+        self.role_keep: Set[str] = set()  # helpers kept out of the normal forms because of what they are applied to (found by role)
         self._discover()
 
     # -- primitives --------------------------------------------------------------------------------------------
@@ -1937,7 +2095,7 @@ class Roles:
         return self.at[role][1].name if role in self.at else None
 
     def keep(self) -> Tuple[str, ...]:
-        return tuple(sorted(set(KEEP) | {f.name for _m, f in self.at.values()}))
+        return tuple(sorted(set(KEEP) | self.role_keep | {f.name for _m, f in self.at.values()}))
 
     def nf(self, role: str, **opts) -> ast.AST:
         """Normal form of the function in *role* (helpers that hold a role of their own are not inlined)."""
@@ -2049,6 +2207,17 @@ class Roles:
                         if t2 is not None:
                             found.append(t2)
         self._set("type_entry", found, "builds the input_type_ok / output_type_ok entries")
+        # the helpers the type-check entry applies to the declared type alone (the one that turns None / a type / a tuple
+        # of types into a tuple or None, the one that renders it for the details), whatever they are called: the polarity
+        # rule reasons about `<that helper>(expected)` as one value, so they stay calls in the normal form
+        te = self.fn("type_entry")
+        tpp = pos_params(te)
+        if len(tpp) >= 3:
+            for c in calls_in(te, include_nested=True):
+                if len(c.args) == 1 and not c.keywords and dotted_name(c.args[0]) == tpp[1]:
+                    t2 = self.callee(self.mod("type_entry"), c)
+                    if t2 is not None and t2[1] is not te:
+                        self.role_keep.add(t2[1].name)
         post = self.fn("post_checks")
         pp = pos_params(post)
         found = []
@@ -2359,7 +2528,10 @@ def run(repo: Repo, R: Report) -> None:
                 verdicts = [utc_anchored(s) for s in scope]
                 params = {a.arg for a in fn.args.args}
                 from_param = any(isinstance(x, ast.Name) and x.id in params and x.id != "self" for s in scope for x in ast.walk(s))
-                if any(v is False for v in verdicts):
+                drift = next((t for s in scope for t in [_non_wall_epoch(s)] if t is not None), None)
+                if drift is not None:
+                    R.violation(r_utc, rel, qn, norm(stmt_of(z))[:110], f"the instant that is rendered and labelled Z is computed from `{drift}`, a clock that does not follow UTC (monotonic / performance / CPU-time counters have an arbitrary origin and stop or drift when the host sleeps or the wall clock is stepped): whatever offset is added, the stamp is not the true UTC instant, and it falls out of order with the stamps the other producers of the stream read from the wall clock", z.lineno)
+                elif any(v is False for v in verdicts):
                     R.violation(r_utc, rel, qn, norm(stmt_of(z))[:110], "a naive local-time reading is labelled Z: on a host that is not in UTC every such timestamp is off by the zone offset", z.lineno)
                 elif any(v is True for v in verdicts):
                     R.ok(r_utc, rel, qn, norm(stmt_of(z))[:110], "UTC-anchored", z.lineno)
@@ -2426,15 +2598,31 @@ def run(repo: Repo, R: Report) -> None:
 
     # ------------------------------------------------------------------ roles in execute()
     g = CFG(ex)
-    sub = next((n for n in g.nodes if n.ast is not None and n.kind == "stmt" and any(call_attr(c) == "_submit_and_wait" for c in calls_in(n.ast))), None)
+    # the node run statement, by role: the call of execute() that is handed the node callable - a lambda or a local def
+    # of execute() whose body runs `<node>.process(Payload(<data>, <context>))` - whatever the receiving method is called
+    local_defs = {n.name: n for n in ast.walk(ex) if isinstance(n, FuncNode) and n is not ex}
+
+    def node_callable_of(c: ast.Call) -> Optional[Tuple[ast.AST, tuple]]:
+        for a in list(c.args) + [k.value for k in c.keywords]:
+            d = a if isinstance(a, ast.Lambda) else local_defs.get(a.id) if isinstance(a, ast.Name) else None
+            h = find1(d, "_N_.process(Payload(_D_, _C_))", nested=True) if d is not None else None
+            if h is not None:
+                return d, h
+        return None
+
+    sub, subcall, hit = None, None, None
+    for n in g.nodes:
+        if n.ast is None or n.kind != "stmt" or isinstance(n.ast, FuncNode):
+            continue
+        for c in calls_in(n.ast):
+            got_cb = node_callable_of(c)
+            if got_cb is not None:
+                sub, subcall, hit = n, c, got_cb[1]
+                break
+        if sub is not None:
+            break
     if sub is None:
-        raise AnalysisError("execute(): node run statement not found")
-    subcall = next(c for c in calls_in(sub.ast) if call_attr(c) == "_submit_and_wait")
-    cb = subcall.args[0] if subcall.args else None
-    cbdef: Optional[ast.AST] = cb if isinstance(cb, ast.Lambda) else None
-    if isinstance(cb, ast.Name):
-        cbdef = next((n for n in ast.walk(ex) if isinstance(n, FuncNode) and n is not ex and n.name == cb.id), None)
-    hit = find1(cbdef, "_N_.process(Payload(_D_, _C_))", nested=True) if cbdef is not None else None
+        raise AnalysisError("execute(): node run statement (the call that is handed the node callable `<node>.process(Payload(<data>, <context>))`) not found")
     if hit is None:
         raise AnalysisError("execute(): the node callable `<node>.process(Payload(<data>, <context>))` was not found")
     NODE, DATA, CTX = name_of(hit[1], "_N_"), name_of(hit[1], "_D_"), name_of(hit[1], "_C_")
@@ -2952,6 +3140,27 @@ def run(repo: Repo, R: Report) -> None:
         rets = [x for n in walk_no_nested(snap) if isinstance(n, ast.Return) for x in (every_of(snap, expand(snap, n.value)) or [n.value])]
         ok = bool(rets) and all(fresh_mapping(r) for r in rets)
         R.check(ok, r_d, A.rel("snapshot"), A.qn("snapshot"), "every return is dict(...) or {}", "a snapshot aliases the live context: pre and post views are the same object and the delta is always empty", snap.lineno)
+        # ... and a copy at every level: nothing below the top level of the view is a container the context object owns
+        r_det = R.rule("C07-D4-snapshot-detached", "the pre-node view shares no container with the live context at any nesting level: on the way from the snapshot function through the export method it calls on the context (for every context class that defines it, and the export methods those call on their parts) every container the context object owns (an instance attribute its methods write into in place) is copied before it goes into the result - the snapshot's own dict(..) copies the top level only, so an owned container one level down is written by the node in the pre view too and the delta (created_keys / updated_keys, key summaries, context_writes_realized) misses the write", 1)
+        sp = pos_params(snap)
+        snap_mod = A.mod("snapshot")
+        export_names = {c.func.attr for c in calls_in(snap) if isinstance(c.func, ast.Attribute) and not c.args and not c.keywords and sp and dotted_name(c.func.value) == sp[0] and c.func.attr not in _VIEWS and c.func.attr != "copy"}
+        X = Exports(repo, export_names)
+        n_bad = 0
+        for name in sorted(export_names):
+            for cm, ck, cf in X.cands[name]:
+                shared: Dict[int, Tuple[str, str, ast.AST]] = {}
+                for r in rets:
+                    for d, src in X.depths(snap_mod, snap, r, only=cf).items():
+                        shared.setdefault(d, src)
+                if shared:
+                    n_bad += 1
+                    d, (srel, sq, se) = min(shared.items(), key=lambda t: t[0])
+                    R.violation(r_det, srel, sq, norm(stmt_of(se))[:110] if parent(se) is not None else txt(se)[:110], f"for a context of class {ck.name} the view `{A.name('snapshot')}` returns still holds `{txt(se)}` - a container the live context object owns and writes into - {d} level(s) below its top: the snapshot's copy is shallow, so what the node writes there appears in the pre-node view as well; pre and post views agree and created_keys / updated_keys (and the key summaries and context_writes_realized computed from them) miss the write", getattr(se, "lineno", cf.lineno))
+                else:
+                    R.ok(r_det, cm.rel, qualname_of(cf), f"{ck.name}.{name}() as copied by the snapshot", "no owned container below the copy", cf.lineno)
+        if not n_bad:
+            R.ok(r_det, A.rel("snapshot"), A.qn("snapshot"), "every returned view is detached from the context object", "", snap.lineno)
     else:
         R.violation(r_d, ORCH, EXECUTE, "<pre-node view> = snapshot(context)", "the pre-node view is not produced by a snapshot function of the repo: nothing guarantees that it is a copy of the context taken before the node ran", ex.lineno)
 
